@@ -218,7 +218,7 @@ func c03Gen(c *Ctx) {
 		t.Try("exact-threshold", in, true)
 	})
 	// ---------- family 3: random scripts of runs over 1-3 buckets: fill past the threshold, drain below it, empty, re-create
-	c.Each(c.N(24, 1500), func(i int, t *T) {
+	c.Each(c.N(24, 400), func(i int, t *T) {
 		r := t.R
 		nk := 1 + r.Intn(3)
 		ks := make([]int64, nk)
@@ -231,7 +231,7 @@ func c03Gen(c *Ctx) {
 		last := map[int64]*c03run{}
 		var in []int64
 		crossed := false
-		budget := int64(t.C.N(13000, 40000)) // single Add/Remove/Contains operations a script may expand to
+		budget := int64(t.C.N(13000, 30000)) // single Add/Remove/Contains operations a script may expand to
 		big := map[int64]bool{}                // at most two buckets receive large fills (bounds the specification's list)
 		phases := 3 + r.Intn(t.C.N(4, 7))
 		for p := 0; p < phases; p++ {
